@@ -113,8 +113,16 @@ def run_well_typed(ck, cases, tag="wt"):
     n = 0
     for ln in r.stdout.splitlines():
         o = json.loads(ln)
-        c = byid[o["id"]]
         n += 1
+        if str(o["id"]).startswith("F"):
+            # the float stack (fixed group of the generated crate): bit-for-bit values, input, maximum
+            if o["obs"] != o["want"]:
+                bad = sorted(k for k in set(o["obs"]) | set(o["want"]) if o["obs"].get(k) != o["want"].get(k))
+                ck.violation(f"replay:builder:float:{'+'.join(bad)}",
+                             f"PushState builder given float values / a float input {o['value']} (call order {o['id']}): built state "
+                             f"{json.dumps(o['obs'])}; supplied {json.dumps(o['want'])}", {"kind": "wt-float", "row": o})
+            continue
+        c = byid[o["id"]]
         if o["obs"] != c["expected"]:
             bad = sorted(k for k in set(o["obs"]) | set(c["expected"]) if o["obs"].get(k) != c["expected"].get(k))
             ck.violation(f"replay:builder:{c['kind']}:{'+'.join(bad)}",
